@@ -96,6 +96,9 @@ func oblOK(o *Obligation) bool {
 
 // unitsFor returns the units (functions under contract, lemmas) serving property id.
 func unitsFor(prog *Program, id string, tier string) []*Unit {
+	// panic-freedom obligations ("nopanic" functions) belong to C07 only: they are generated when C07 is checked (and
+	// by the developer command `verify`), not when the same functions are verified for another property
+	activeProperty = id
 	var units []*Unit
 	serves := func(ps []string) bool {
 		for _, p := range ps {
